@@ -239,6 +239,62 @@ func (m *mmBacking) kind() string { return "mm" }
 
 // ---------------------------------------------------------------- environment
 
+// blkLogIdx: TLC's integers have 32 bits; an index beyond them is logged as the largest one (as far outside 0..Count-1)
+func blkLogIdx(i int) int {
+	if i > 1<<31-1 {
+		return 1<<31 - 1
+	}
+	if i < -(1<<31 - 1) {
+		return -(1<<31 - 1)
+	}
+	return i
+}
+
+// blkFarIndexes: indexes near the top of the int range for which offset arithmetic of the usual kinds wraps round to a
+// small number: (i + i/B + 1) * bs, (i + 1) * bs, i * bs and i * 8 with B = 8*bs blocks per segment, for targets within the
+// first few segments.  All of them lie far outside 0..Count-1: ErrInvalid, and nothing changes.
+var blkFarCache = map[int][]int{}
+
+func blkFarIndexes(bs int) []int {
+	if v, ok := blkFarCache[bs]; ok {
+		return v
+	}
+	var res []int
+	add := func(i uint64) {
+		if i > 1<<31 && i < 1<<63 {
+			res = append(res, int(i))
+		}
+	}
+	B := uint64(8 * bs)
+	k := 0
+	for 1<<uint(k) < bs {
+		k++
+	}
+	if bs > 1 && 1<<uint(k) == bs {
+		for t := uint64(1); t < uint64(bs) && t <= 8; t++ {
+			for _, r := range []uint64{0, 1, 2, 3, B, B + 1, B + 2, 2*B + 2} {
+				y := t<<(64-uint(k)) + r // y * bs == r * bs (mod 2^64)
+				// plain products: (i+1)*bs, i*bs
+				add(y - 1)
+				add(y)
+				// (i + i/B + 1) == y
+				q, j := (y-1)/(B+1), (y-1)%(B+1)
+				if j < B {
+					add(q*B + j)
+				}
+			}
+		}
+	}
+	for _, d := range []uint64{1, 2, 3, 4, 8, 16, 17} { // and simply the top of the range and its fractions
+		for _, o := range []uint64{0, 1, 2} {
+			add(1<<63/d - o)
+			add(1<<63/d*uint64(d-1)/d + o)
+		}
+	}
+	blkFarCache[bs] = res
+	return res
+}
+
 func blkErrKind(err error) string {
 	switch {
 	case err == nil:
@@ -731,7 +787,7 @@ func (e *blkEnv) do(s Step, snapshot bool) (Step, blkSnap) {
 		}
 	case "Free":
 		i := s.Int("i")
-		got["i"] = i
+		got["i"] = blkLogIdx(i)
 		var err error
 		panicked, pv = callPanics(func() { err = e.b.FreeBlock(i) })
 		if panicked {
@@ -770,7 +826,7 @@ func (e *blkEnv) do(s Step, snapshot bool) (Step, blkSnap) {
 		}
 	case "Block":
 		i := s.Int("i")
-		got["i"] = i
+		got["i"] = blkLogIdx(i)
 		var blk []byte
 		var err error
 		panicked, pv = callPanics(func() { blk, err = e.b.Block(i) })
@@ -1123,6 +1179,9 @@ func blkRandomRun(tw *TraceWriter, rnd *rand.Rand, c blkRunCfg, page int) []blkN
 				idx = rnd.Intn(e.cnt)
 			case q < 90:
 				idx = []int{-1, e.cnt, e.cnt + 1, -e.cnt, 1 << 30}[rnd.Intn(5)]
+				if far := blkFarIndexes(e.bs); rnd.Intn(2) == 0 && len(far) > 0 {
+					idx = far[rnd.Intn(len(far))]
+				}
 			default:
 				idx = []int{0, B - 1, B, e.cnt - 1, e.cnt - B, 7, 8}[rnd.Intn(7)]
 			}
@@ -1133,6 +1192,9 @@ func blkRandomRun(tw *TraceWriter, rnd *rand.Rand, c blkRunCfg, page int) []blkN
 			s = Step{"op": "Count"}
 		case r < 97:
 			s = Step{"op": "Block", "i": []int{-1, 0, e.cnt - 1, e.cnt, rnd.Intn(e.cnt + 2)}[rnd.Intn(5)]}
+			if far := blkFarIndexes(e.bs); rnd.Intn(3) == 0 && len(far) > 0 {
+				s = Step{"op": "Block", "i": far[rnd.Intn(len(far))]}
+			}
 		default:
 			s = Step{"op": "Reopen"}
 		}
